@@ -296,7 +296,10 @@ def run_vmap(ctx, i, rng):
   for col in cols:
     rank_min = min([len(shape) for shape, _ in rv.get(col, {}).values()] or [0])
     roles[col] = rng.choice([('axis', 0), ('axis', min(1, rank_min)), ('none',)]) if col == 'params' else rng.choice([('axis', 0), ('axis', min(1, rank_min))])
-  in_ax, out_ax = rng.choice([0, 0, 1]), rng.choice([0, 0, 1])
+  for col, r in list(roles.items()):
+    if r[0] == 'axis' and rng.random() < 0.3:
+      roles[col] = ('axis', -1)   # new last axis of every leaf, whatever its rank
+  in_ax, out_ax = rng.choice([0, 0, 1, -1]), rng.choice([0, 0, 1, -1, -2])
   split_params = rng.random() < 0.7
   if roles['params'][0] == 'none':
     split_params = False  # shared (None-axis) parameters cannot be initialised from split rngs
